@@ -1,4 +1,5 @@
 import CatiiProofs.AggProofs
+import CatiiProofs.StackDirect
 /-!
 # C03 — index cube, array cube and direct group-by agree on the shared aggregates
 
@@ -13,6 +14,10 @@ inside marginal differencing is not a theorem (the harness checks the exact "dya
 equality and general doubles within the stated tolerance).  The hypothesis `hTol` is forced by the
 code: after differencing, `ffunc_count`/`ffunc_mean` treat |x| ≤ 1e-8 as zero, the array cube does
 not; the three agree when no relevant per-cell total lies in (0, 1e-8].
+
+Dimensions with two or three axes: `multi_axis_blocks_are_direct` — the driver stacks one sub-cube per choice of one
+column (1-D slice, C13) per dimension; every block is the direct per-cell aggregate over exactly those columns, and
+the index cube and the array cube of those columns agree with it.
 -/
 namespace Catii.C03
 open Catii.Cube Catii.Marg Catii.Agg
@@ -43,8 +48,33 @@ theorem strided_coordinates_injective (exts c c' : List Nat) (hl : c.length = ex
   rw [flatIndex_eq_flat exts c hl, flatIndex_eq_flat exts c' hl'] at h
   exact flat_inj exts c c' hl hl' hr hr' h
 
+/-- cubes over dimensions with extra axes (`(N, C)`, `(N, C, D)`): every block of the result — labelled by one
+higher-coordinate tuple per dimension, concatenated in dimension order — is the direct per-cell aggregate over the
+columns those labels name, for every aggregate of the model; index cube, array cube and direct computation agree on
+every cell of every block -/
+theorem multi_axis_blocks_are_direct (s : Spec) (ixs : List Catii.IIdx.IIndex) (exts : List Nat) (N : Nat)
+    (hlen : exts.length = ixs.length)
+    (hok : ∀ a (ha : a < ixs.length), Catii.Stack.StackDimOK N (exts.getD a 0) ixs[a])
+    (hTol : ∀ (dims : List Dim), ∀ c ∈ allCells exts,
+      isClose0 s.zeroTol (directMeasure dims N (rowVal s) c) = decide (directMeasure dims N (rowVal s) c = 0) ∧
+      isClose0 s.zeroTol (directMeasure dims N (rowDen s) c) = decide (directMeasure dims N (rowDen s) c = 0))
+    (b : List Int × Except Cube.Err (Cell → CellOut)) (hb : b ∈ Catii.Stack.stackAgg s ixs exts N) :
+    ∃ (combo : List (List Int × Catii.IIdx.IIndex)) (f : Cell → CellOut),
+      b.1 = combo.flatMap (·.1) ∧ b.2 = .ok f ∧
+      List.Forall₂ (fun p i => p.1 ∈ Catii.IIdx.hiCells (i.shape.drop 1) ∧
+        ∀ r, (dense (Catii.IIdx.toDim p.2) r : Int) = Catii.IIdx.denseAt i r p.1) combo ixs ∧
+      ∀ c ∈ allCells exts,
+        f c = directAgg s (combo.map fun p => Catii.IIdx.toDim p.2) N c ∧
+        xcubeAgg s ((combo.map fun p => Catii.IIdx.toDim p.2).map fun d => fun r => dense d r) exts N c =
+          directAgg s (combo.map fun p => Catii.IIdx.toDim p.2) N c :=
+  Catii.Stack.stacked_blocks_are_direct s ixs exts N hlen hok hTol b hb
+
 /-! Non-vacuity: with exact tolerance 0 the hypothesis `hTol` holds for every input. -/
 example (s : Spec) (hs : s.zeroTol = 0) (x : Rat) : isClose0 s.zeroTol x = decide (x = 0) := by
   rw [hs]; exact isClose0_zero x
+
+-- a (3, 2) dimension with common 0 and values < 3 meets `StackDimOK`
+example : Catii.Stack.StackDimOK 3 3 ⟨[([1, 0], [0, 2]), ([2, 1], [1])], 0, [3, 2]⟩ :=
+  ⟨Catii.IIdx.wf_sound _ (by decide), rfl, by decide, by decide, by decide, by decide⟩
 
 end Catii.C03
